@@ -144,8 +144,42 @@ func checkC01(c *Ctx, r *Report) {
 	}
 	r.Add("C01-fullread", "fbb", "raw Read calls on Session.rd", "fbb").OK("%d raw Read call(s) on the session reader examined; blocks are read byte-wise or with ReadString", nRaw)
 
+	// ---- C01-onereader: one buffered reader per session. A second one on the same connection reads
+	// ahead and keeps what it buffered when it is dropped (the next frame, if the link coalesced the
+	// sender's writes).
+	r.Rule("C01-onereader", 1, "the session reads the connection through one buffered reader only")
+	{
+		nReaders := 0
+		for _, fn := range c.SrcFuncs(pkg) {
+			root := rootFn(fn)
+			if root.Signature.Recv() == nil || !strings.HasSuffix(root.Signature.Recv().Type().String(), "fbb.Session") {
+				continue
+			}
+			for _, ci := range callsTo(fn, false, "bufio.NewReader", "bufio.NewReaderSize", "bufio.NewScanner", "net/textproto.NewReader") {
+				nReaders++
+				stored := false
+				if v := ci.Value(); v != nil {
+					for _, ref := range *v.Referrers() {
+						if st, ok := ref.(*ssa.Store); ok && strings.HasSuffix(pathOf(st.Addr), ".rd") {
+							stored = true
+						}
+					}
+				}
+				r.Check("C01-onereader", fnName(fn), "buffered reader "+c.exprAt(fn, ci.Pos()), c.pos(ci.Pos()), stored,
+					"becomes the session's reader (Session.rd)", "a second buffered reader is created on the session's connection: whatever it reads ahead beyond the current frame (the next message when the link delivers the sender's writes in one segment) is lost when it is dropped, and the exchange stalls")
+			}
+		}
+		if nReaders == 0 {
+			r.Add("C01-onereader", "fbb", "session reader", "fbb").Bad("no buffered reader found in the methods of Session (unresolved)")
+		}
+	}
+
 	// ---- C01-block
 	blockRule(c, r, pr, "C01-block")
+	alignRule(c, r, "C01-align")
+	fieldOrderRule(c, r, "C01-fieldorder")
+	r.Rule("C01-section", 1, "sections of a message are delimited the same way for every size and buffering")
+	sectionTermRule(c, r, "C01-section")
 
 	// ---- C01-report
 	r.Rule("C01-report", 6, "reporting chains (shared with C02)")
